@@ -168,8 +168,12 @@ impl FromStr for Move {
         if !matches!(s.len(), 4 | 5) {
             return Err(RawParseError::BadLength);
         }
-        let src = Coord::from_str(&s[0..2]).map_err(RawParseError::BadSrc)?;
-        let dst = Coord::from_str(&s[2..4]).map_err(RawParseError::BadDst)?;
+        // Use `get()` instead of indexing: the string may contain multi-byte characters, and
+        // slicing in the middle of a character would panic.
+        let src = Coord::from_str(s.get(0..2).ok_or(RawParseError::BadLength)?)
+            .map_err(RawParseError::BadSrc)?;
+        let dst = Coord::from_str(s.get(2..4).ok_or(RawParseError::BadLength)?)
+            .map_err(RawParseError::BadDst)?;
         let promote = if s.len() == 5 {
             Some(match s.as_bytes()[4] {
                 b'n' => PromotePiece::Knight,
